@@ -1,7 +1,7 @@
 SPECIFICATION Spec
 CONSTANTS
   NS = 3
-  MaxNodes = 5
+  MaxNodes = 6
 INVARIANTS
   InvStructure
   InvTT
